@@ -77,6 +77,11 @@ def operations() -> List[Tuple[Any, ...]]:
 
 
 OPS = operations()
+CORE_ITEMS = {"a1", "a2", "ap", "a_2", "keys"}
+# the deepest tier explores a core alphabet: operations on five items (equal, same-named, suffixed, method-like) plus the
+# structural and copying operations
+CORE_OPS = [op for op in OPS if all((not isinstance(a, str)) or a in CORE_ITEMS for a in op[1:])]
+_ACTIVE = [OPS]
 
 
 class State:
@@ -312,7 +317,7 @@ def enabled(st: State) -> List[Tuple[Any, ...]]:
     present = {id(x) for x in st.nil}
     out = []
     lst = list(st.nil)
-    for op in OPS:
+    for op in _ACTIVE[0]:
         if op[0] == "append-dup":
             # the very same object a second time (never a third): every POSITION has exactly one name, so it gets two names
             if not lst or sum(1 for x in lst if x is lst[0]) > 1:
@@ -355,8 +360,9 @@ def check(st: State, hist: Tuple[Any, ...], ev: Any) -> List[Tuple[str, str]]:
     return [("C16/" + k, d) for k, d in st.problems]
 
 
-def explore(unit: Tuple[Tuple[Any, ...], int]) -> Part:
-    start, depth = unit
+def explore(unit: Tuple[Any, ...]) -> Part:
+    start, depth = unit[0], unit[1]
+    _ACTIVE[0] = CORE_OPS if len(unit) > 2 and unit[2] == "core" else OPS
     part = Part()
     seen: set = set()
     res = bfs(init=State, events=enabled, step=None, canon=lambda s: digest(canon(s)), check=check,
@@ -381,7 +387,13 @@ def run(ctx: Ctx) -> None:
     ctx.assumptions = ["only the operations the property names are in the alphabet (+=, slice assignment, sort are not)",
                        "items are plain dataclasses with a short_name; equality by (short_name, content)"]
     # shard by the first event; each worker explores the subtree below it with its own seen-set
-    units = [((op,), depth - 1) for op in OPS]
+    if ctx.quick:
+        units: List[Tuple[Any, ...]] = [((op,), depth - 1) for op in OPS]
+    else:
+        # depth 4 over the full alphabet, depth 5 over the core alphabet
+        units = [((op,), 3) for op in OPS] + [((op,), 4, "core") for op in CORE_OPS]
+        ctx.bounds["depth"] = "4 over all operations, 5 over the core operations"
+        ctx.bounds["core_operations"] = len(CORE_OPS)
     root = explore(((), 0))
     ctx.merge(root)
     pmap(ctx, explore, units)
